@@ -341,6 +341,9 @@ class FilesystemStorageBackend(StorageBackendBase):
             metadata_config_path = config_path
         self.metadata_config_path = metadata_config_path
 
+        if memory_cache_mb is None:
+            memory_cache_mb = config.get("memory_cache_mb", None)
+
         data_source = _FilesystemDataSource(self.config_path)
         metadata_source = DataSourceMetadataSource(
             _FilesystemDataSource(self.metadata_config_path)
@@ -363,6 +366,8 @@ class FilesystemStorageBackend(StorageBackendBase):
             config["readonly"] = self.read_only
         if self.config_path is not None:
             config["path"] = self.config_path
+        if self.metadata_config_path != self.config_path:
+            config["metadata_path"] = self.metadata_config_path
         if self._memory_cache is not None:
             config["memory_cache_mb"] = (
                 self._memory_cache.memory_cache_bytes / 1024 / 1024
